@@ -253,12 +253,16 @@ func (tc *twoChain) restartL2() {
 
 // restartL1 exports the L1 (accounts, balances, ophost) and starts a fresh chain from that genesis
 // (through its JSON form) at the same height and time; the new chain replaces tc.l1.
-func (tc *twoChain) restartL1() {
+func (tc *twoChain) restartL1(renumber ...bool) {
 	old := tc.l1
 	var gs ophosttypes.GenesisState
 	old.Enc.Marshaler.MustUnmarshalJSON(old.Enc.Marshaler.MustMarshalJSON(old.K.ExportGenesis(old.Ctx)), &gs)
 	tc.l1 = importL1(old, &gs)
-	tc.logf("L1 genesis export -> import")
+	if len(renumber) > 0 && renumber[0] {
+		// the new chain numbers its blocks from 1 again (block time goes on)
+		tc.l1.Ctx = tc.l1.Ctx.WithBlockHeight(1)
+	}
+	tc.logf("L1 genesis export -> import (height %d -> %d)", old.Ctx.BlockHeight(), tc.l1.Ctx.BlockHeight())
 }
 
 // neighbourChallenge is ordinary life on another bridge of the same L1: its proposer submits two
